@@ -176,7 +176,58 @@ def run(prog, an, rep):
     rep.assume('the arithmetic of the counts (set sizes, author-as-leader '
                'increment, unanimity equality) is not evaluated')
     rep.run_rules(prog, an, [gate, formulas, shapes, counted_sets, helpers,
-                             settings_validation])
+                             settings_validation, user_identity])
+
+
+def user_identity(prog, an, rep):
+    """The approvers, participants and change requesters are sets of the
+    strings the git host reports; the robot, the leaders and the admins are
+    UserDict objects looked up in them (`leader in approvals`, set
+    intersections).  That look-up needs hash(user) to be the hash of the
+    string __eq__ accepts at the time of the look-up: the account id when
+    there is one (it is set after log-in for the robot), else the
+    username."""
+    from ..rules import (return_exprs_under, simplify_under, canon,
+                         returns_under)
+    R = 'C04.SIB.user-identity'
+    f = need_func(an, 'bert_e.settings.UserDict.__hash__')
+    for env, want in (({'self.account_id': True}, 'hash(self.account_id)'),
+                      ({'self.account_id': False}, 'hash(self.username)')):
+        got = set()
+        for e in return_exprs_under(an, f, env):
+            if e is None or isinstance(e, tuple):
+                got.add(str(e))
+            else:
+                got.add(canon(f, simplify_under(
+                    f, ast.parse(canon(f, e), mode='eval').body, env)))
+        rep.evaluated()
+        rep.check(got == {want}, R, 'UserDict.__hash__ with%s account id is '
+                  '%s' % ('' if env['self.account_id'] else 'out', want),
+                  f.where(), 'hash of a user is %s: it is not the hash of '
+                  'the string the user compares equal to at that time' %
+                  sorted(got))
+    g = need_func(an, 'bert_e.settings.UserDict.__eq__')
+    for env, want in (
+            ({'isinstance(other, UserDict)': False,
+              'isinstance(other, self.__class__)': False,
+              'isinstance(other, str)': True,
+              'other == self.account_id': True}, True),
+            ({'isinstance(other, UserDict)': False,
+              'isinstance(other, self.__class__)': False,
+              'isinstance(other, str)': True,
+              'other == self.account_id': False,
+              'other == self.username': True}, True),
+            ({'isinstance(other, UserDict)': False,
+              'isinstance(other, self.__class__)': False,
+              'isinstance(other, str)': True,
+              'other == self.account_id': False,
+              'other == self.username': False}, False)):
+        got = returns_under(an, g, env)
+        rep.evaluated()
+        rep.check(got == {want}, R, 'UserDict == str: account id or '
+                  'username (%s)' % want, g.where(),
+                  'comparison with a string answers %s under %s' % (
+                      sorted(map(str, got)), env))
 
 
 def gate(prog, an, rep):
